@@ -74,6 +74,7 @@ Lemma DInv_transfer H D H' D' s s' :
   cur s <= cur s' -> 1 <= cur s' -> revs_ok (d_revs s') ->
   (forall k, lcs s k <= lcs s' k) ->
   evicted_from (d_memo s) (d_memo s') ->
+  (forall i, f_changed (d_in s i) <= f_changed (d_in s' i)) ->
   (* the past is kept wherever a memo was verified *)
   (forall q m, d_memo s q = Some m ->
      H' (m_verified m) = H (m_verified m) /\ forall i, D' (m_verified m) i = D (m_verified m) i) ->
@@ -86,13 +87,13 @@ Lemma DInv_transfer H D H' D' s s' :
      sn_in (H' (r + 1)) i = sn_in (H' r) i /\ D' (r + 1) i = D' r i) ->
   DInv H' D' s'.
 Proof.
-  intros HI Hc H1 Hrv Hlc Hev Hpast Hin Hdur Hinle Hcell Hd3 Hwr.
+  intros HI Hc H1 Hrv Hlc Hev Hfc Hpast Hin Hdur Hinle Hcell Hd3 Hwr.
   unfold DInv_d in HI. destruct HI as [a a' b b' c d e f g].
   change (cur (set_cell s _)) with (cur s) in *.
   change (d_memo (set_cell s _)) with (d_memo s) in *.
   assert (Hok : forall q m m', d_memo s q = Some m -> memo_sim m m' -> dmemo_ok H' D' s' q m').
   { intros q m m' Hm (S1 & S2 & S3 & S4 & S5 & S6). specialize (g q m Hm).
-    destruct g as [a0 b0 c0 d0 e0 f0 g0 h0 i0 j0].
+    destruct g as [a0 b0 c0 d0 e0 f0 g0 h0 i0 k0 j0].
     destruct (Hpast q m Hm) as [HHv HDv].
     assert (Hdg : forall k x, durge H D (m_verified m) k x -> durge H' D' (m_verified m) k x).
     { intros k x. apply (durge_hist_eq prog NF H D H' D'); assumption. }
@@ -103,6 +104,13 @@ Proof.
     - intros x Hx. rewrite (E_hist_eq prog NF H H' _ q HHv). apply b0. apply S6; exact Hx.
     - intros i Hi. rewrite HDv. apply c0; exact Hi.
     - intros d1 Hd1. destruct (d0 d1 Hd1) as [A | A]; [left; exact A | right; apply Hdg; exact A].
+    - destruct k0 as [A | (x & Hx & Hs)]; [left; exact A | right].
+      exists x. split; [exact Hx|]. destruct x as [i1 | d1 | c1 |]; cbn in *; try exact Hs.
+      + change (d_in (set_cell s _) i1) with (d_in s i1) in Hs. specialize (Hfc i1). lia.
+      + destruct Hs as (md & Hmd & Hle).
+        change (d_memo (set_cell s _) d1) with (d_memo s d1) in Hmd.
+        destruct (evicted_fwd _ _ d1 md Hev Hmd) as (md' & Hmd' & (_ & T2 & _)).
+        exists md'. split; [exact Hmd' | lia].
     - intros d1 Hd1. apply (clos_hist_eq prog NF H' H) in Hd1; [|symmetry; exact HHv].
       destruct (j0 d1 Hd1) as (md & Hmd & Hobs).
       change (d_memo (set_cell s _) d1) with (d_memo s d1) in Hmd.
@@ -123,7 +131,7 @@ Qed.
 Lemma DInv_to_d H D s : DInv H D s -> DInv_d H D s.
 Proof.
   intros [a a' b b' c d e f g]. unfold DInv_d. constructor; auto.
-  intros q m Hm. specialize (g q m Hm). destruct g as [a0 b0 c0 d0 e0 f0 g0 h0 i0 j0].
+  intros q m Hm. specialize (g q m Hm). destruct g as [a0 b0 c0 d0 e0 f0 g0 h0 i0 k0 j0].
   constructor; auto.
 Qed.
 
@@ -209,6 +217,7 @@ Proof.
   - exists (extend H (cur s') (snap_of s')), (extendD D (cur s') (durs_of s')).
     apply (DInv_transfer H D _ _ s s'); auto; try lia.
     + destruct F2 as (A & B & C). rewrite Hr. unfold revs_ok; cbn. lia.
+    + intros i. rewrite Hi. lia.
     + intros q m Hm. specialize (F3 q m Hm).
       split; [apply extend_other; lia | intros i; rewrite extendD_other by lia; reflexivity].
     + intros i r Hle Hrc. destruct (N.eq_dec r (cur s')) as [-> | Hne].
@@ -284,6 +293,9 @@ Proof.
   apply (DInv_transfer H D _ _ s s'); auto; try lia.
   - apply DInv_to_d; exact HI.
   - apply evicted_refl.
+  - intros j. destruct (key_eqb_spec j i) as [-> | Hji].
+    + rewrite Hin_i. cbn. apply F6.
+    + rewrite (Hin' j Hji). lia.
   - intros q m Hm. specialize (Hfresh q m Hm).
     split; [apply extend_other; lia | intros j; rewrite extendD_other by lia; reflexivity].
   - intros j r Hle Hrc. destruct (N.eq_dec r (cur s')) as [-> | Hne].
@@ -376,9 +388,37 @@ Proof. destruct dirty; intros [A _]; [exact A | apply OK_to_d; exact A]. Qed.
 Notation get_ok := (get_ok prog NF).
 Notation outs_ok := (outs_ok prog noeq fams NF).
 
+(* the outcome of a Get, with the sharp set of panics: the from-scratch value, or an injected
+   fault while some fault switch is on.  (The backdate-violation assertion is unreachable.) *)
+Definition get_ok_strict (s : db) (q : qkey) (r : out) : Prop :=
+  r = Ok (eval prog NF (snap_of s) q) \/
+  (r = Panic PInjected /\ ((exists c, d_pcell s c <> 0) \/ d_evfault s <> None)).
+
+Fixpoint outs_ok_strict (fuel : nat) (s : db) (os : list op) : Prop :=
+  match os with
+  | [] => True
+  | o :: os' =>
+      (match o with OGet q => get_ok_strict s q (snd (step prog noeq fams fuel s o)) | _ => True end) /\
+      outs_ok_strict fuel (fst (step prog noeq fams fuel s o)) os'
+  end.
+
+Lemma get_ok_strict_get_ok s q r : get_ok_strict s q r -> get_ok s q r.
+Proof.
+  intros [Hx | [Hp Ha]]; [left; exact Hx | right].
+  exists PInjected. split; [exact Hp | right; split; [reflexivity | exact Ha]].
+Qed.
+
+Lemma outs_ok_strict_outs_ok fuel : forall os s, outs_ok_strict fuel s os -> outs_ok fuel s os.
+Proof.
+  induction os as [|o os IH]; intros s Hx; [exact I|].
+  cbn [outs_ok_strict InvTop.outs_ok] in *. destruct Hx as [A B].
+  split; [|apply IH; exact B].
+  destruct o; try exact I. apply get_ok_strict_get_ok; exact A.
+Qed.
+
 Lemma step_get_ok fuel s q :
   (forall p, (rank p < fuel)%nat) -> state_ok false s ->
-  get_ok s q (snd (step prog noeq fams fuel s (OGet q))) /\
+  get_ok_strict s q (snd (step prog noeq fams fuel s (OGet q))) /\
   state_ok false (fst (step prog noeq fams fuel s (OGet q))).
 Proof.
   intros Hfuel [(H & D & HI) Hst]. cbn [step].
@@ -394,8 +434,8 @@ Proof.
     + left. f_equal. rewrite Hv. unfold Inv.E.
       apply (eval_snap_eq prog). apply (DInv_snap H D); exact HI.
     + split; [exists H, D; exact HI' | congruence].
-  - cbn [fst snd]. destruct Hwp as (Ha & HI' & _).
-    split; [right; exists p; split; [reflexivity | exact Ha]|].
+  - cbn [fst snd]. destruct Hwp as ([-> Ha] & HI' & _).
+    split; [right; split; [reflexivity | exact Ha]|].
     split; [|reflexivity].
     exists H, D. apply (DInv_core_eq prog NF H D s'); [repeat split | exact HI'].
   - destruct Hwp.
@@ -467,15 +507,16 @@ Proof.
     + apply (OK_same (zalsa_mut fams s)); auto; [apply OK_zalsa_mut; exact A | apply evict_all_revs].
 Qed.
 
-(* The from-scratch theorem for inputs and writes of arbitrary durability. *)
-Theorem from_scratch_dur fuel :
+(* The from-scratch theorem for inputs and writes of arbitrary durability, with the sharp
+   set of panics: no backdate-violation panic, injected panics only while a switch is on. *)
+Theorem from_scratch_dur_strong fuel :
   (forall p, (rank p < fuel)%nat) ->
   forall ops dirty s, Forall dur_op ops -> wf_ops dirty ops -> state_ok dirty s ->
-  outs_ok fuel s ops.
+  outs_ok_strict fuel s ops.
 Proof.
   intros Hfuel. induction ops as [|o ops IH]; intros dirty s Hdur Hwf Hok; [exact I|].
   inversion Hdur as [|? ? Hdo Hdurs]; subst.
-  cbn [InvTop.outs_ok].
+  cbn [outs_ok_strict].
   destruct o as [i v d | d | c v | c v | ef | q | fam n |].
   - split; [exact I|]. apply (IH false); [exact Hdurs | exact Hwf |].
     apply (step_other_ok fuel dirty s (OSet i v d) Hdo Hok).
@@ -494,6 +535,15 @@ Proof.
     apply (step_other_ok fuel dirty s (OSetLru fam n) Hdo Hok).
   - split; [exact I|]. apply (IH dirty); [exact Hdurs | exact Hwf |].
     apply (step_other_ok fuel dirty s OEvict Hdo Hok).
+Qed.
+
+Theorem from_scratch_dur fuel :
+  (forall p, (rank p < fuel)%nat) ->
+  forall ops dirty s, Forall dur_op ops -> wf_ops dirty ops -> state_ok dirty s ->
+  outs_ok fuel s ops.
+Proof.
+  intros Hfuel ops dirty s Hdur Hwf Hok. apply outs_ok_strict_outs_ok.
+  apply (from_scratch_dur_strong fuel Hfuel ops dirty s Hdur Hwf Hok).
 Qed.
 
 Lemma init_ok_dur iv idur lru0 : (forall i, idur i <= 3) -> state_ok false (init iv idur lru0).
@@ -520,6 +570,15 @@ Theorem from_scratch_dur_init fuel :
 Proof.
   intros Hfuel iv idur lru0 ops Hid Hdur Hwf.
   apply (from_scratch_dur fuel Hfuel ops false _ Hdur Hwf). apply init_ok_dur. exact Hid.
+Qed.
+
+Theorem from_scratch_dur_strong_init fuel :
+  (forall p, (rank p < fuel)%nat) ->
+  forall iv idur lru0 ops, (forall i, idur i <= 3) -> Forall dur_op ops -> wf_ops false ops ->
+  outs_ok_strict fuel (init iv idur lru0) ops.
+Proof.
+  intros Hfuel iv idur lru0 ops Hid Hdur Hwf.
+  apply (from_scratch_dur_strong fuel Hfuel ops false _ Hdur Hwf). apply init_ok_dur. exact Hid.
 Qed.
 
 (* the LOW-durability theorem of Core/InvTop.v is an instance *)
